@@ -354,13 +354,29 @@ class List(list, base.Symbolic, pg_typing.CustomTyping):
     # from insertions and deletions.
     path_value_pairs = sorted(
         path_value_pairs.items(), key=lambda x: x[0], reverse=True)
-    for k, v in path_value_pairs:
+
+    # NOTE: items at positions past the end are appended. They are applied
+    # last and in ascending order, so that they keep their relative order and
+    # none of them is written over by another one.
+    size = len(self)
+    def _is_append(path: utils.KeyPath) -> bool:
+      return (len(path) == 1 and isinstance(path.key, int)
+              and path.key >= size)
+    appends = [kv for kv in path_value_pairs if _is_append(kv[0])]
+    appends.reverse()
+    in_place = [kv for kv in path_value_pairs if not _is_append(kv[0])]
+
+    for k, v in in_place:
       update = self._set_item_of_current_tree(k, v)
       if update is not None:
         updates.append(update)
     # Reverse the updates so the update is from the smallest number to
     # the largest.
     updates.reverse()
+    for k, v in appends:
+      update = self._set_item_of_current_tree(k, v)
+      if update is not None:
+        updates.append(update)
     return updates
 
   def _sym_nondefault(self) -> Dict[int, Any]:
